@@ -255,6 +255,42 @@ func runC10(c *ctx, r *Report) error {
 		}
 	}
 	r.sample(map[string]interface{}{"files": len(files), "repositories": []string{"repo", "repo2"}, "example_alone": alone[files[1]]})
+	// the external tools cannot be found (the default configuration on a machine without shellcheck / pyflakes): several files
+	// in one call, and the same Linter used for a second call — same results, and (race-detector build) no shared field
+	// of the Linter written while files are linted in parallel
+	{
+		opts := &actionlint.LinterOptions{Shellcheck: "no-such-shellcheck-command-xyz", Pyflakes: "no-such-pyflakes-command-xyz"}
+		l, err := actionlint.NewLinter(nopWriter{}, opts)
+		if err != nil {
+			return err
+		}
+		var first string
+		for rep := 0; rep < 3; rep++ {
+			runtime.GOMAXPROCS([]int{16, 4, 1}[rep])
+			errs, err := l.LintFiles(files, nil)
+			r.Evaluations++
+			if err != nil {
+				r.Crashes = append(r.Crashes, Case{Op: "lintfiles-tools-missing", Note: err.Error()})
+				break
+			}
+			per := canon(errs)
+			var all []string
+			for _, f := range files {
+				all = append(all, per[f])
+				if per[f] != alone[f] {
+					r.finding("file-depends-on-other-files", fmt.Sprintf("diagnostics of %s differ from linting it alone when the external tools cannot be found", strings.TrimPrefix(f, tmp+"/")),
+						Case{Op: "lintfiles-tools-missing", Input: map[string]string{"call": fmt.Sprint(rep + 1)}, Impl: per[f], Model: alone[f]})
+				}
+			}
+			if rep == 0 {
+				first = strings.Join(all, "\n--\n")
+			} else if strings.Join(all, "\n--\n") != first {
+				r.finding("linter-state-survives-call", "the same Linter gives other results in a later LintFiles call", Case{Op: "lintfiles-tools-missing", Input: map[string]string{"call": fmt.Sprint(rep + 1)}})
+			}
+		}
+		r.nontrivial("tools-missing")
+		r.Rule += "; all files through one Linter whose shellcheck / pyflakes commands cannot be found, three calls in a row"
+	}
 	// nested repositories (a repository vendored inside another one): a file belongs to the innermost repository that
 	// contains it, whatever was linted before it in the same run
 	{
